@@ -96,8 +96,9 @@ DimStats check_dimension(vf::Ctx& c, hep::vegas_pdf<T> const& oldp, hep::vegas_p
         LD const r = s[b] / norm;
         // a ratio or smoothed value in the subnormal range of T has few bits, but the importance depends on it through its
         // logarithm only: compare coarsely (below) instead of not at all; values that T flushes to zero are not judged
-        if (!coarse && (r < tiny * 4 || s[b] < tiny * 4))
+        if (r < tiny * 4 || s[b] < tiny * 4)
         {
+            // (checked for every bin: one that T flushes to zero next to one it keeps must not slip through)
             if (r < static_cast<LD>(std::numeric_limits<T>::denorm_min()) * 64 || s[b] < static_cast<LD>(std::numeric_limits<T>::denorm_min()) * 64) { st.skipped_model = true; return st; }
             coarse = true;
         }
